@@ -310,7 +310,36 @@ def substElems (fuel : Nat) : List (Tmpl × Bool) → Subst → Loc → Option (
     | _, _ => none
 end
 
-/-- fuel that suffices for matching `p` against `d` -/
+mutual
+/-- does the template mention a pattern variable (a key of the table)? -/
+def mentionsVar (σ : Subst) : Tmpl → Bool
+  | .list es => mentionsVarElems σ es
+  | .vec es => mentionsVarElems σ es
+  | .ident v => (σ.get? v).isSome
+  | .prim _ => false
+def mentionsVarElems (σ : Subst) : List (Tmpl × Bool) → Bool
+  | [] => false
+  | (t, _) :: rest => mentionsVar σ t || mentionsVarElems σ rest
+end
+
+mutual
+/-- every sub-template followed by an ellipsis mentions a pattern variable (otherwise
+`substitute_template_element` reports `UnexpectedTemplate`: nothing would end the repetition).
+The Rust tests this when it reaches the element; instantiation visits every element, so testing
+the whole template first gives the same outcome. -/
+def ellipsisOk (σ : Subst) : Tmpl → Bool
+  | .list es => ellipsisOkElems σ es
+  | .vec es => ellipsisOkElems σ es
+  | .ident _ => true
+  | .prim _ => true
+def ellipsisOkElems (σ : Subst) : List (Tmpl × Bool) → Bool
+  | [] => true
+  | (t, flagged) :: rest =>
+    (!flagged || mentionsVar σ t) && ellipsisOk σ t && ellipsisOkElems σ rest
+end
+
+/-- fuel that suffices for matching `p` against `d` (for the patterns of the supported class; a
+pattern with very many trailing ellipses can need more) -/
 def matchFuel (d : Datum) : Nat := 4 * d.size + 64
 
 /-- `UserDefinedTransformer::transform`: the first rule whose pattern matches the use
@@ -320,6 +349,7 @@ def transformRules (fuel : Nat) (lits : List String) : List (Pat × Tmpl) → Da
   | (p, t) :: rest, use => do
     let (ok, σ) ← matchDatum fuel lits p use []
     if ok then
+      if !ellipsisOk σ t then .error (.syntax, none) else
       match subst fuel t σ use.loc with
       | some d => pure d
       | none => .error (.fuel, none)
